@@ -191,7 +191,7 @@ func (s *Scenario) Build() (*Built, error) {
 		case "sigalg-only":
 			sig = ""
 		}
-		if s.Mut != "strip-sig" {
+		if s.Mut != "strip-sig" && s.Mut != "sig-only" {
 			params = append(params, idp.Q("SigAlg", sendAlg))
 		}
 		if sig != "" {
@@ -205,6 +205,13 @@ func (s *Scenario) Build() (*Built, error) {
 		body = params
 	default:
 		query = params
+	}
+	if s.Mut == "split-forged-body" {
+		// the query carries a validly signed redirect message, the form body a different message / RelayState
+		method = http.MethodPost
+		query = params
+		forged := strings.Replace(string(doc), `ID="`, `ID="forged`, 1)
+		body = []idp.Param{idp.Q("SAMLRequest", idp.DeflateB64([]byte(forged))), idp.Q("RelayState", "forged-state")}
 	}
 	if s.Mut == "param-split" {
 		// message in the body, a decoy SAMLRequest in the query (or the reverse for GET)
@@ -270,7 +277,7 @@ func (a *Abstract) instants(ss ...string) {
 		if err != nil {
 			a.Times[s] = nil
 		} else {
-			n := t.UnixNano()
+			n := t.UnixMicro()
 			a.Times[s] = &n
 		}
 	}
